@@ -260,6 +260,17 @@ struct EbSys {
     c.ok(ph + ":stored-items-from-input", from_input, "the sample holds an item that was never given to the sketch");
     std::vector<int> srt = stored; std::sort(srt.begin(), srt.end());
     c.ok(ph + ":stored-items-distinct", std::adjacent_find(srt.begin(), srt.end()) == srt.end(), "the sample holds an input item twice");
+    // what get_result() can return from this state: the full items, plus the partial item when its draw falls below frac(c).
+    // Both outcomes must have floor(c) or ceil(c) items (fractions below 1e-9 are floating-point noise, unreachable by a draw).
+    {
+      const double lo = std::floor(cl), hi = std::ceil(cl), fr = cl - lo; const double nd = (double)k.sample_.data_.size();
+      bool ok = nd == lo || nd == hi; std::string why = ok ? "" : "full items " + str(nd) + " with c=" + str(cl);
+      if (ok && fr > 1e-9 && fr < 1 - 1e-9) {
+        if (!bool(k.sample_.partial_item_)) { ok = false; why = "c=" + str(cl) + " has a fractional part but there is no partial item to return"; }
+        else if (nd + 1 != hi) { ok = false; why = "full items " + str(nd) + " plus the partial item with c=" + str(cl); }
+      }
+      c.ok(ph + ":possible-result-sizes-are-floor-or-ceil-c", ok, why);
+    }
   }
 
   static bool all_equal_unmerged(const Model& m) {
